@@ -714,6 +714,19 @@ func TestVerifC06(t *testing.T) {
 			}
 		}
 	}
+	// directed scenario for the open finding c06-http-method-outside-list: registered HTTP/1 methods that
+	// are not among the sixteen of common.IsValidHttpMethod, head in ONE read
+	if kf, kerr := os.Create(VOutDir() + "/c06.known"); kerr == nil {
+		for _, m := range []string{"MKCOL", "MOVE", "PROPPATCH", "REPORT", "SEARCH", "MKCALENDAR", "QUERY"} {
+			head := []byte(m + " /dav/x HTTP/1.1\r\nHost: dav.example.org\r\nContent-Length: 0\r\n\r\n")
+			_, out := c06RunTcpOpt([]c06Ev{{'d', head}, {'e', nil}}, "read", false, false, 1<<16)
+			if got := c06Field(out, "res"); got != "ok:"+c06Hex([]byte("dav.example.org")) {
+				fmt.Fprintf(kf, "c06-http-method-outside-list %s head in one read: SniffTcp answered %s, the Host header says dav.example.org (relay intact=%s)\n", m, got, c06Field(out, "intact"))
+			}
+			g.stats.Inc("http.directed_method_outside_list")
+		}
+		kf.Close()
+	}
 	// NormalizeDomain
 	for i := 0; i < 120*scale; i++ {
 		nm, _, cls := g.name()
